@@ -9,6 +9,7 @@ import re
 from coco.b09 import procbank
 from coco.b09.compiler import convert
 from coco.b09.procbank import ProcedureBank
+from tx.tier import THOROUGH, pick
 from tx import ecbsig
 from tx.p_c05 import ob, guarded
 
@@ -34,7 +35,7 @@ def small_graphs():
         bad = []
         n = 0
         for mask in range(0, 1 << 16, 1):
-            if mask % 7 and mask % 11:      # 1/7 + 1/11 of all 65536 graphs plus ...
+            if not THOROUGH and mask % 7 and mask % 11:      # 1/7 + 1/11 of all 65536 graphs plus ... (thorough: all)
                 if mask > 4096:
                     continue
             edges = {a: set() for a in names}
@@ -55,7 +56,7 @@ def small_graphs():
                 if len(bad) > 3:
                     break
         return [ob("closure/all sampled digraphs on 4 procedures", not bad and n > 10000, "headers == sorted(reachable - root) + [root], each once", bad[:2] or "%d graphs" % n,
-                   bounded="all 4096 graphs with the first 12 edge slots plus every 7th / 11th of the remaining 61440")]
+                   bounded=pick("all 4096 graphs with the first 12 edge slots plus every 7th / 11th of the remaining 61440", "all 65536 digraphs on 4 procedures"))]
     return guarded("closure", run)
 
 
@@ -100,7 +101,7 @@ def regex_contracts():
         alpha = ["RUN ", "x", '"', " ", "y1"]
         bad = []
         n = 0
-        for k in range(1, 7):
+        for k in range(1, pick(7, 9)):
             for parts in itertools.product(alpha, repeat=k):
                 line = "".join(parts)
                 n += 1
@@ -112,11 +113,11 @@ def regex_contracts():
                 # overlapping matches: findall consumes; compare as the contract does (non-overlapping scan)
                 if got != exp:
                     bad.append((line, got, exp))
-        res.append(ob("regex/INVOKED_PROCEDURE_NAMES", not bad, "RUN <name> counted iff an even number of quotes follows on the line", bad[:3] or "%d lines" % n, bounded="all strings of up to 6 tokens over %r" % alpha))
+        res.append(ob("regex/INVOKED_PROCEDURE_NAMES", not bad, "RUN <name> counted iff an even number of quotes follows on the line", bad[:3] or "%d lines" % n, bounded="all strings of up to %d tokens over %r" % (pick(6, 8), alpha)))
         alpha = [": STRING<<>>", ":STRING<<>>", '"', " ", "x"]
         bad = []
         n = 0
-        for k in range(1, 6):
+        for k in range(1, pick(6, 8)):
             for parts in itertools.product(alpha, repeat=k):
                 text = "".join(parts)
                 n += 1
@@ -124,7 +125,7 @@ def regex_contracts():
                 exp = [m.start() for m in re.finditer(r"(?i):\s*STRING<<>>", text) if text[m.end():].count('"') % 2 == 0]
                 if got != exp:
                     bad.append((text, got, exp))
-        res.append(ob("regex/STR_STORAGE_TAG", not bad, "the tag counted iff an even number of quotes follows", bad[:3] or "%d texts" % n, bounded="all strings of up to 5 tokens over %r" % alpha))
+        res.append(ob("regex/STR_STORAGE_TAG", not bad, "the tag counted iff an even number of quotes follows", bad[:3] or "%d texts" % n, bounded="all strings of up to %d tokens over %r" % (pick(5, 7), alpha)))
         heads = {"procedure abc": "abc", "PROCEDURE  x_1  ": "x_1", " procedure abc": None, "procedure": None, "procedure a b": None, "procedure a-b": None, 'print "procedure abc"': None,
                  "procedure 3d": "3d", "Procedure _p": "_p"}
         bad = [(l, (procbank.PROCEDURE_START_PREFIX.match(l) or [None, None])[1], w) for l, w in heads.items() if ((procbank.PROCEDURE_START_PREFIX.match(l) or [None, None])[1]) != w]
@@ -168,6 +169,27 @@ def user_text():
     return guarded("user-text", run)
 
 
+def requested_size_reaches_bundle():
+    """through convert(): every placeholder of every bundled procedure carries the *requested* size, for sizes on both
+    sides of BASIC09's default (the bank is told the size the program was converted with)"""
+    def run():
+        res = []
+        src = '10 A$=STRING$(3,"x"):PLAY "C":X=INSTR(1,A$,"x"):PRINT HEX$(3);STR$(X)\n'
+        for size in (1, 16, 31, 32, 33, 80, 255):
+            out = convert(src, output_dependencies=True, procname="p", default_str_storage=size)
+            heads = re.findall(r"(?mi)^procedure (\w+)", out)
+            bank_raw = ProcedureBank(default_str_storage=32)
+            bank_raw.add_from_resource("ecb.b09")
+            ntags = sum(len(re.findall(r"(?i):\s*STRING<<>>", bank_raw._name_to_procedure[h])) for h in heads if h in bank_raw._name_to_procedure)
+            lib_part = out[:out.rfind("procedure p")]
+            got = len(re.findall(r"(?i):\s*STRING\[%d\]" % size, lib_part)) if size != 32 else ntags - len(re.findall(r"(?i)STRING<<>>", lib_part))
+            pre = sum(len(re.findall(r"(?i):\s*STRING\[%d\]" % size, bank_raw._name_to_procedure[h])) for h in heads if h in bank_raw._name_to_procedure) if size != 32 else 0
+            res.append(ob("bundle/requested size %d reaches every placeholder" % size, ntags > 0 and got - pre == ntags, "%d placeholders sized [%d]" % (ntags, size),
+                          "%d sized declarations (library text itself has %d)" % (got, pre)))
+        return res
+    return guarded("bundle/requested size", run)
+
+
 def line_splitting():
     """the bank splits its input at CR and LF only: every other character of a procedure comes through unchanged"""
     def run():
@@ -198,4 +220,4 @@ def history():
 
 
 def obligations():
-    return small_graphs() + real_library() + regex_contracts() + user_text() + line_splitting() + history()
+    return small_graphs() + real_library() + regex_contracts() + user_text() + requested_size_reaches_bundle() + line_splitting() + history()
